@@ -26,18 +26,25 @@ Definition table_slots (keys : list Z) : list (option val) :=
   map (fun s => match s with None => None | Some (_, (k, _)) => Some (VInt k) end)
       (TableModel.slots Z Z (fold_left step keys t0)).
 
-(* Tree leaf: the distinct keys in in-order sequence (descending when larger keys go left) *)
-Fixpoint ins_sorted (lt : Z -> Z -> bool) (k : Z) (l : list Z) : list Z :=
-  match l with
-  | [] => [k]
-  | x :: r => if Z.eqb k x then l else if lt k x then k :: l else x :: ins_sorted lt k r
+(* Tree leaf: new(Tree, Int, Int) then set(k, 10k) for every key.  Tree_Set descends comparing
+   cmp(node key, key): larger keys go LEFT (orientation re-read from the source: iter_tree_desc).  The model
+   tree is the plain (unbalanced) search tree of the insertions: the walk theorems hold for every shape and the
+   transcript shows keys only; the red-black shape itself is C03's. *)
+Fixpoint bst_insert (left_of : Z -> Z -> bool) (k : Z) (t : tree) : tree :=
+  match t with
+  | TLeaf => TNode TLeaf (VInt k) TLeaf
+  | TNode l (VInt x) r =>
+    if Z.eqb k x then t
+    else if left_of k x then TNode (bst_insert left_of k l) (VInt x) r
+    else TNode l (VInt x) (bst_insert left_of k r)
+  | TNode _ _ _ => t
   end.
-Definition tree_inorder (keys : list Z) : list val :=
-  let lt := if source_tree_desc then Z.gtb else Z.ltb in
-  map VInt (fold_left (fun acc k => ins_sorted lt k acc) keys []).
+Definition tree_build (keys : list Z) : tree :=
+  let left_of := if source_tree_desc then Z.gtb else Z.ltb in
+  fold_left (fun t k => bst_insert left_of k t) keys TLeaf.
 
 Definition z_ltb := Z.ltb.
 
 Extraction Language OCaml.
 Extraction "../ocaml/gen/Iter.ml" m_len m_get m_walk m_range m_slice m_reverse m_enumerate m_pred m_fun
-  table_slots tree_inorder z_ltb zlen.
+  table_slots tree_build z_ltb zlen.
